@@ -180,6 +180,7 @@ def r2(ctx, F):
     # component variants
     vmap = ENUMS["std::path::Component<'_>"]
     found = {}
+    found_edge = {}
     for bi in cfg.reachable():
         blk = b.blocks[bi]
         for st in blk['stmts']:
@@ -192,6 +193,7 @@ def r2(ctx, F):
                         listed[v] = tgt
                     for v, name in vmap.items():
                         found[name] = listed.get(v, t['otherwise'])
+                        found_edge[name] = (bi, listed[v], v) if v in listed else (bi, t['otherwise'], 'otherwise')
     if not found and pred_ok:
         for name in ('ParentDir', 'RootDir', 'Prefix'):
             ctx.ok('C11.R2', 'safe_join:%s->None' % name, 'component %s makes the iterator predicate refuse the path' % name, loc(b, b.lo))
@@ -202,6 +204,10 @@ def r2(ctx, F):
         tgt = found.get(name)
         r = cfg.reach(tgt) if tgt is not None else set()
         leaks = r & (set(somes) | heads)
+        if leaks and name in found_edge:
+            # the arm may only SET a flag (`matches!(c, Normal | CurDir)` = false) that the next test reads: follow the constant
+            # along feasible paths before calling it a leak
+            leaks = cfg.feasible_after_edge(found_edge[name]) & (set(somes) | heads)
         ctx.check(tgt is not None and not leaks, 'C11.R2', 'safe_join:%s->None' % name, 'component %s can only lead to None' % name,
                   'a path with a %s component is not refused by safe_join (the arm continues the loop or reaches Some)' % name, loc(b, b.lo))
 
@@ -239,8 +245,6 @@ def _behind_confinement_predicate(F, hub, b, bb):
     if sj is None:
         return False
     preds = {callee(t_) for _, t_ in flow_of(sj).calls(lambda c: F.body(c) is not None and F.body(c).local_ty(0) == 'bool')}
-    if not preds:
-        return False
     def guarded_in(body, blk):
         fl_ = flow_of(body)
         for pb_, pt_ in fl_.calls(lambda c: c in preds):
@@ -249,6 +253,16 @@ def _behind_confinement_predicate(F, hub, b, bb):
                 return True
         return False
     if guarded_in(b, bb):
+        return True
+    # the predicate written out (or spliced) in place: the call sits behind `is_absolute == false` AND behind the exhausted
+    # loop over `components()` - the two tests safe_join itself consists of
+    fl0 = flow_of(b)
+    abs_ok = any((fl0.outcomes(ab).get('false') and fl0.cfg.edges_guard(fl0.outcomes(ab)['false'], bb)) for ab, at in fl0.calls_to('std::path::Path::is_absolute'))
+    loop_ok = False
+    for nb, nt in fl0.calls_to('std::iter::Iterator::next'):
+        if any(o.kind == 'call' and o.key == 'std::path::Path::components' for o in fl0.origins(nt['args'][0])) and fl0.guarded_by(bb, nb, 'None'):
+            loop_ok = True
+    if abs_ok and loop_ok:
         return True
     # the enclosing closure is the argument of bool::then(<predicate result>, closure) in its parent
     cur, hops = b, 0
